@@ -207,6 +207,10 @@ func (fr *frame) inlineCall(st *state, g *ssa.Function, ci *closureInfo, pos tok
 			if ci2 := fr.lookupClosure(av); ci2 != nil && i < len(g.Params) {
 				child.closures[g.Params[i]] = ci2
 			}
+			// an interior pointer (address of an embedded struct value) keeps its location in the expanded callee
+			if l, ok := fr.locs[a]; ok && l != nil && len(l.path) > 0 && i < len(g.Params) {
+				child.locs[g.Params[i]] = l
+			}
 		}
 	}
 	child.old = st.clone()
@@ -414,6 +418,12 @@ func (fr *frame) invoke(st *state, c *ssa.CallCommon, instr ssa.Instruction, pos
 		fc.unmodelled[ikey] = true
 	}
 	sig := c.Signature()
+	if ct == nil && !c.Method.Exported() && fr.depth < maxInlineDepth {
+		if res, ok := fr.dispatchClosed(st, c, pos, recv, args, eff); ok {
+			delete(fc.unmodelled, ikey)
+			return res
+		}
+	}
 	vars := map[string]TV{"recv": {T: recv, Sort: "Val", Typ: c.Value.Type()}}
 	for i := 0; i < sig.Params().Len(); i++ {
 		p := sig.Params().At(i)
@@ -669,4 +679,100 @@ func (fr *frame) ownParam(j int) string {
 		}
 	}
 	return ""
+}
+
+
+// dispatchClosed: a call of an unexported interface method can only reach types of the declaring package
+// (closed world): case split on the dynamic type over the pointer types of that package that have the method,
+// expanding the (possibly promoted) method for each; any other dynamic type gets the generic treatment.
+func (fr *frame) dispatchClosed(st *state, c *ssa.CallCommon, pos token.Pos, recv string, args []string, eff []string) ([]string, bool) {
+	fc := fr.fc
+	sc := fc.sc
+	e := fc.e
+	pkg := c.Method.Pkg()
+	if pkg == nil {
+		return nil, false
+	}
+	type cand struct {
+		tag int
+		fn  *ssa.Function
+	}
+	var cands []cand
+	names := pkg.Scope().Names()
+	sort.Strings(names)
+	for _, n := range names {
+		tn, ok := pkg.Scope().Lookup(n).(*types.TypeName)
+		if !ok || tn.IsAlias() {
+			continue
+		}
+		if _, isIface := tn.Type().Underlying().(*types.Interface); isIface {
+			continue
+		}
+		pt := types.NewPointer(tn.Type())
+		sel := e.prog.MethodSets.MethodSet(pt).Lookup(pkg, c.Method.Name())
+		if sel == nil {
+			continue
+		}
+		if !types.Identical(sel.Type().(*types.Signature).Params(), c.Signature().Params()) {
+			continue
+		}
+		f := e.prog.MethodValue(sel)
+		if f == nil || len(f.Blocks) == 0 {
+			continue
+		}
+		cands = append(cands, cand{e.u.tagOf(pt), f})
+	}
+	if len(cands) == 0 || len(cands) > 12 {
+		return nil, false
+	}
+	sig := c.Signature()
+	var outs []*state
+	var results [][]string
+	var conds []string
+	for _, cd := range cands {
+		cond := fmt.Sprintf("(= (vtag %s) %d)", recv, cd.tag)
+		conds = append(conds, cond)
+		b := st.clone()
+		b.reach = sc.define("reach_d", "Bool", and(st.reach, cond))
+		cargs := append([]string{app("vpay", recv)}, args...)
+		var res []string
+		key := e.keyOf(cd.fn)
+		if ct := e.contracts.Funcs[key]; ct != nil && !ct.Inline {
+			res = fr.contractCall(b, cd.fn, ct, key, c, pos, cargs, nil)
+		} else {
+			saved := fr.curCall
+			fr.curCall = nil
+			res = fr.inlineCall(b, cd.fn, nil, pos, cargs)
+			fr.curCall = saved
+		}
+		outs = append(outs, b)
+		results = append(results, res)
+	}
+	// every other dynamic type
+	other := st.clone()
+	var nots []string
+	for _, cnd := range conds {
+		nots = append(nots, not(cnd))
+	}
+	other.reach = sc.define("reach_d", "Bool", and(append([]string{st.reach}, nots...)...))
+	pre := other.clone()
+	fc.havocFramedArgs(other, pre, eff, fr.ownParam)
+	fr.bumpAlloc(other)
+	ores := fr.freshResults(other, sig, "dyn")
+	outs = append(outs, other)
+	results = append(results, ores)
+	merged := fr.mergeStates(outs)
+	n := sig.Results().Len()
+	res := make([]string, n)
+	for i := 0; i < n; i++ {
+		t := results[len(results)-1][i]
+		for j := len(results) - 2; j >= 0; j-- {
+			t = ite(outs[j].reach, results[j][i], t)
+		}
+		res[i] = sc.define("disp", e.u.sortOf(sig.Results().At(i).Type()), t)
+	}
+	st.heap = merged.heap
+	st.alloc = merged.alloc
+	st.reach = merged.reach
+	return res, true
 }
